@@ -257,7 +257,36 @@ def generate_emit():
         body += "def dropRuleAfterUserCode : Bool := %s\n" % (
             "true" if (i_drop is not None and i_drop > i_filter and i_drop > i_dyn) else "false")
         body += "/-- … and it is the only comparison with `.stripped` in `emit`; `Logger._log` has none -/\n"
-        body += "def emitStrippedCompares : Nat := %d\ndef logStrippedCompares : Nat := %d\n" % (ncmp, nlog)
+        body += "def emitStrippedCompares : Nat := %d\ndef logStrippedCompares : Nat := %d\n\n" % (ncmp, nlog)
+
+        # (c) Logger.level(): inside `with self._core.lock:` the ANSI prefix is stored and then EVERY handler's
+        # update_format(name) is called, as unconditional direct statements of the block
+        lvl_fn = find_func(ltree, "level", cls="Logger")
+        withs = [n for n in ast.walk(lvl_fn) if isinstance(n, ast.With)
+                 and any("levels_ansi_codes" in ast.unparse(x) for x in n.body)]
+        if len(withs) != 1:
+            raise Unsupported("Logger.level: the block storing levels_ansi_codes[name]")
+        blk = withs[0].body
+        i_ansi = i_upd = None
+        for i, st in enumerate(blk):
+            if isinstance(st, ast.Assign) and ast.unparse(st.targets[0]) == "self._core.levels_ansi_codes[name]":
+                i_ansi = i
+            if isinstance(st, ast.For) and ast.unparse(st.iter) == "self._core.handlers.values()" and not st.orelse \
+                    and len(st.body) == 1 and ast.unparse(st.body[0]) == "%s.update_format(name)" % ast.unparse(st.target):
+                i_upd = i
+        nupd = sum(1 for n in ast.walk(lvl_fn) if isinstance(n, ast.Call) and ast.unparse(n.func).endswith(".update_format"))
+        ansi_src = None
+        for n in ast.walk(lvl_fn):
+            if isinstance(n, ast.Assign) and ast.unparse(n.targets[0]) == "ansi":
+                ansi_src = ast.unparse(n.value)
+        body += "/-- `for handler in self._core.handlers.values(): handler.update_format(name)` is an unconditional\n"
+        body += "direct statement of the locked block of `Logger.level` … -/\n"
+        body += "def levelUpdatesEveryHandler : Bool := %s\n" % ("true" if i_upd is not None else "false")
+        body += "/-- … after `levels_ansi_codes[name] = ansi` (which `update_format` reads), and it is the only call -/\n"
+        body += "def levelAnsiStoredBeforeUpdate : Bool := %s\n" % (
+            "true" if (i_upd is not None and i_ansi is not None and i_ansi < i_upd) else "false")
+        body += "def levelUpdateCalls : Nat := %d\n" % nupd
+        body += "def levelAnsiSource : List Char := %s\n" % lean_chars(ansi_src or "?")
     except (Unsupported, SyntaxError, KeyError, AttributeError, IndexError, OSError) as e:
         errors.append("%s: %s" % (type(e).__name__, e))
     body += "\nend Markup.GenEmit\n"
